@@ -3,3 +3,331 @@ From Coq Require Import List ZArith Bool Lia.
 From SV Require Import C14.Gen C14.Model.
 Import ListNotations.
 Open Scope Z_scope.
+
+Ltac case_if := match goal with |- context [if ?c then _ else _] => destruct c eqn:? end.
+
+Definition sumz (l : list Z) : Z := fold_right Z.add 0 l.
+
+Lemma sumz_app a b : sumz (a ++ b) = sumz a + sumz b.
+Proof. unfold sumz. induction a as [|x a IH]; cbn [app fold_right]; [lia|]. rewrite IH. lia. Qed.
+
+(** * The converter's DATA arm *)
+
+(** what one call may put on the wire *)
+Lemma emit_data_sound window mf len :
+  0 <= len -> 0 <= mf -> window <= I32_MAX ->
+  let e := emit_data window mf len in
+  match e_frame e with
+  | Some f =>
+    0 <= f /\ f <= mf /\ f <= window /\ f <= len /\
+    e_window e = window - f /\ e_rest e = len - f
+  | None => window <= 0 /\ e_window e = window /\ e_rest e = len
+  end.
+Proof.
+  intros Hl Hm Hwm. cbv zeta. unfold emit_data.
+  destruct ((len <=? I32_MAX) && (len <=? window)) eqn:F; cbn [andb].
+  - apply andb_prop in F. destruct F as [F1 F2]. apply Z.leb_le in F1, F2.
+    destruct (len <=? mf) eqn:G; cbn [e_frame e_window e_rest].
+    + apply Z.leb_le in G. repeat split; lia.
+    + apply Z.leb_gt in G. destruct (0 <? window) eqn:W; cbn [e_frame e_window e_rest].
+      * apply Z.ltb_lt in W. repeat split; lia.
+      * apply Z.ltb_ge in W. repeat split; lia.
+  - destruct (0 <? window) eqn:W; cbn [e_frame e_window e_rest].
+    + apply Z.ltb_lt in W. apply andb_false_iff in F.
+      unfold I32_MAX in *.
+      destruct F as [F|F]; apply Z.leb_gt in F; repeat split; lia.
+    + apply Z.ltb_ge in W. repeat split; lia.
+Qed.
+
+(** progress of one call: a positive window and a non-empty chunk always emit at least one byte *)
+Lemma emit_data_progress window mf len :
+  0 < window -> 0 < len -> 0 < mf ->
+  exists f, e_frame (emit_data window mf len) = Some f /\ 0 < f.
+Proof.
+  intros Hw Hl Hm. unfold emit_data.
+  destruct ((len <=? I32_MAX) && (len <=? window) && (len <=? mf)) eqn:F.
+  - exists len. split; [reflexivity|lia].
+  - destruct (0 <? window) eqn:W; [|apply Z.ltb_ge in W; lia].
+    exists (Z.min mf window). split; [reflexivity|lia].
+Qed.
+
+Ltac finish_nil :=
+  rewrite ?app_nil_r; cbn [sumz fold_right];
+  split; [reflexivity|]; split; [constructor|]; split; [lia|]; split; [lia|];
+  split; [intros _; left; reflexivity|]; split; [lia|]; split; [try lia|try assumption; try constructor].
+
+(** [prepare]: everything emitted in one pass *)
+Lemma prepare_sound fuel : forall yield window mf chunks acc frames lft w',
+  0 <= mf -> window <= I32_MAX -> Forall (fun c => 0 <= c) chunks ->
+  prepare fuel yield window mf chunks acc = Some (frames, lft, w') ->
+  exists emitted,
+    frames = rev acc ++ emitted /\
+    Forall (fun f => 0 <= f /\ f <= mf) emitted /\
+    sumz emitted = window - w' /\
+    0 <= sumz emitted /\
+    (window <= 0 -> emitted = [] \/ sumz emitted = 0) /\
+    sumz emitted <= Z.max 0 window /\
+    sumz emitted + sumz lft = sumz chunks /\
+    Forall (fun c => 0 <= c) lft.
+Proof.
+  induction fuel as [|fuel IH]; intros yield window mf chunks acc frames lft w' Hm Hwm Hc H.
+  - destruct chunks as [|c rest]; cbn [prepare] in H; [|discriminate].
+    inversion H; subst. exists []. finish_nil.
+  - destruct chunks as [|c rest]; cbn [prepare] in H.
+    + inversion H; subst. exists []. finish_nil.
+    + inversion Hc as [|? ? Hc0 Hcr]; subst.
+      pose proof (emit_data_sound window mf c Hc0 Hm Hwm) as E. cbv zeta in E.
+      destruct (e_frame (emit_data window mf c)) as [f|] eqn:Ef.
+      * destruct E as (F0 & F1 & F2 & F3 & F4 & F5).
+        set (chunks' := if 0 <? e_rest (emit_data window mf c) then e_rest (emit_data window mf c) :: rest else rest) in *.
+        assert (Hc' : Forall (fun c => 0 <= c) chunks').
+        { unfold chunks'. destruct (0 <? _) eqn:R; [constructor; [apply Z.ltb_lt in R; lia|exact Hcr]|exact Hcr]. }
+        assert (Hs' : sumz chunks' = (c - f) + sumz rest).
+        { unfold chunks'. destruct (0 <? _) eqn:R; unfold sumz; cbn [fold_right]; [lia|]. apply Z.ltb_ge in R. lia. }
+        destruct (e_continue (emit_data window mf c) && negb yield).
+        -- apply IH in H; [|exact Hm|lia|exact Hc'].
+           destruct H as (em & Hf & Ha & Hsum & Hpos & Hneg & Hmax & Htot & Hl).
+           exists (f :: em). cbn [rev] in Hf. rewrite <- app_assoc in Hf. cbn [app] in Hf.
+           unfold sumz in *. cbn [fold_right] in *.
+           split; [exact Hf|]. split; [constructor; [lia|exact Ha]|]. split; [lia|]. split; [lia|].
+           split; [intros Hw; right; lia|]. split; [lia|]. split; [lia|exact Hl].
+        -- inversion H; subst. exists [f]. unfold sumz in *. cbn [rev fold_right] in *.
+           split; [reflexivity|]. split; [constructor; [lia|constructor]|]. split; [lia|]. split; [lia|].
+           split; [intros Hw; right; lia|]. split; [lia|]. split; [lia|exact Hc'].
+      * destruct E as (W & E1 & E2). inversion H; subst.
+        exists []. finish_nil.
+Qed.
+
+(** [write_stream]: what one stream puts on the wire in one pass, and the books afterwards *)
+Lemma write_stream_sound fuel c x x' cw' frames :
+  0 <= max_frame c -> Forall (fun b => 0 <= b) (body x) ->
+  I32_MIN <= swin x <= I32_MAX -> I32_MIN <= cwin c <= I32_MAX ->
+  write_stream fuel c x = Some (x', cw', frames) ->
+  Forall (fun f => 0 <= f /\ f <= max_frame c) frames /\
+  0 <= sumz frames <= Z.max 0 (Z.min (swin x) (cwin c)) /\
+  swin x' = swin x - sumz frames /\ cw' = cwin c - sumz frames /\
+  sumz frames + sumz (body x') = sumz (body x) /\ sid x' = sid x.
+Proof.
+  intros Hm Hb Hs Hc. unfold write_stream.
+  destruct (prepare fuel false (Z.min (swin x) (cwin c)) (max_frame c) (body x) []) as [[[fr lft] w']|] eqn:P; [|discriminate].
+  intros H; inversion H; subst; clear H.
+  apply prepare_sound in P; [|exact Hm|lia|exact Hb].
+  destruct P as (em & Hf & Ha & Hsum & Hpos & Hneg & Hmax & Htot & Hl). cbn [rev app] in Hf. subst em.
+  cbn [swin sid body].
+  replace (Z.min (swin x) (cwin c) - w') with (sumz frames) by lia.
+  unfold saturating_sub, I32_MIN, I32_MAX in *.
+  repeat split; try assumption; try lia.
+Qed.
+
+(** progress: positive windows, a non-empty first chunk and a legal max frame size emit DATA *)
+Lemma write_stream_progress fuel c x b rest :
+  body x = b :: rest -> 0 < b -> 0 < swin x -> 0 < cwin c -> 0 < max_frame c -> (0 < fuel)%nat ->
+  match write_stream fuel c x with
+  | Some (_, _, f :: _) => 0 < f
+  | Some (_, _, []) => False
+  | None => True
+  end.
+Proof.
+  intros Hb Hb0 Hs Hc Hm Hf. unfold write_stream. rewrite Hb.
+  destruct fuel as [|fuel]; [lia|]. cbn [prepare].
+  destruct (emit_data_progress (Z.min (swin x) (cwin c)) (max_frame c) b) as (f & Ef & Fpos); try lia.
+  rewrite Ef.
+  set (chunks' := if 0 <? _ then _ else rest).
+  destruct (e_continue _ && negb false).
+  - destruct (prepare fuel false _ (max_frame c) chunks' [f]) as [[[fr lft] w']|] eqn:P; [|exact I].
+    assert (exists tl, fr = f :: tl) as [tl ->].
+    { clear -P. revert P. generalize (e_window (emit_data (Z.min (swin x) (cwin c)) (max_frame c) b)).
+      intros w P.
+      assert (G : forall fuel y w mf ch acc fr lft w', prepare fuel y w mf ch acc = Some (fr, lft, w') -> exists tl, fr = rev acc ++ tl).
+      { clear. induction fuel as [|fuel IH]; intros y w mf ch acc fr lft w' H.
+        - destruct ch; cbn [prepare] in H; [|discriminate]. inversion H; subst. exists []. rewrite app_nil_r; reflexivity.
+        - destruct ch as [|c r]; cbn [prepare] in H.
+          + inversion H; subst. exists []. rewrite app_nil_r; reflexivity.
+          + destruct (e_frame (emit_data w mf c)) as [g|].
+            * destruct (e_continue _ && negb y).
+              -- apply IH in H. destruct H as [tl ->]. cbn [rev]. rewrite <- app_assoc. eexists; reflexivity.
+              -- inversion H; subst. cbn [rev]. eexists; reflexivity.
+            * inversion H; subst. exists []. rewrite app_nil_r; reflexivity. }
+      apply G in P. cbn [rev app] in P. exact P. }
+    exact Fpos.
+  - cbn [rev app]. exact Fpos.
+Qed.
+
+(** * WINDOW_UPDATE and SETTINGS *)
+
+Lemma checked_add_some a b w : checked_add a b = Some w -> w = a + b /\ I32_MIN <= w <= I32_MAX.
+Proof.
+  unfold checked_add. destruct ((a + b <=? I32_MAX) && (I32_MIN <=? a + b)) eqn:E; [|discriminate].
+  apply andb_prop in E. destruct E as [E1 E2]. apply Z.leb_le in E1, E2. intros H; inversion H; lia.
+Qed.
+
+Lemma checked_add_none a b : checked_add a b = None -> I32_MAX < a + b \/ a + b < I32_MIN.
+Proof.
+  unfold checked_add. destruct ((a + b <=? I32_MAX) && (I32_MIN <=? a + b)) eqn:E; [discriminate|].
+  apply andb_false_iff in E. destruct E as [E|E]; apply Z.leb_gt in E; lia.
+Qed.
+
+(** zero increment and overflow on the connection window *)
+Lemma window_update_conn c inc :
+  0 <= inc <= I32_MAX -> I32_MIN <= cwin c ->
+  match on_window_update c 0 inc with
+  | (_, GoAway ProtocolError) => inc = 0
+  | (_, GoAway FlowControlError) => inc <> 0 /\ I32_MAX < cwin c + inc
+  | (c', Continue) => inc <> 0 /\ cwin c' = cwin c + inc /\ cwin c' <= I32_MAX /\
+                      streams c' = streams c /\
+                      (cwin c <= 0 -> 0 < cwin c' -> writable c' = true)
+  | (_, RstStream _ _) => False
+  end.
+Proof.
+  intros Hi Hlo. unfold on_window_update. destruct (inc =? 0) eqn:E0.
+  - apply Z.eqb_eq in E0. cbn. exact E0.
+  - apply Z.eqb_neq in E0. cbn [Z.eqb].
+    destruct (inc <=? I32_MAX) eqn:Em; [|apply Z.leb_gt in Em; lia].
+    destruct (checked_add (cwin c) inc) as [w|] eqn:A.
+    + apply checked_add_some in A. destruct A as [A1 A2]. cbn [set_cwin cwin streams writable].
+      repeat split; try lia.
+      all: intros H1 H2;
+        assert ((cwin c <=? 0) && (0 <? w) = true) as -> by
+          (apply andb_true_intro; split; [apply Z.leb_le; lia|apply Z.ltb_lt; lia]);
+        apply orb_true_r.
+    + apply checked_add_none in A. unfold I32_MIN, I32_MAX in *. split; [exact E0|lia].
+Qed.
+
+(** the same on a stream window: stream errors *)
+Lemma window_update_stream c s inc x :
+  s <> 0 -> 0 <= inc <= I32_MAX -> find_stream s (streams c) = Some x -> I32_MIN <= swin x ->
+  match on_window_update c s inc with
+  | (_, RstStream s' ProtocolError) => s' = s /\ inc = 0
+  | (_, RstStream s' FlowControlError) => s' = s /\ inc <> 0 /\ I32_MAX < swin x + inc
+  | (c', Continue) => inc <> 0 /\ swin x + inc <= I32_MAX /\ cwin c' = cwin c
+  | (_, GoAway _) => False
+  end.
+Proof.
+  intros Hs Hi Hf Hlo. unfold on_window_update. destruct (inc =? 0) eqn:E0.
+  - apply Z.eqb_eq in E0. destruct (s =? 0) eqn:Es; [apply Z.eqb_eq in Es; contradiction|].
+    rewrite Hf. split; [reflexivity|exact E0].
+  - apply Z.eqb_neq in E0.
+    destruct (inc <=? I32_MAX) eqn:Em; [|apply Z.leb_gt in Em; lia].
+    destruct (s =? 0) eqn:Es; [apply Z.eqb_eq in Es; contradiction|].
+    rewrite Hf. destruct (checked_add (swin x) inc) as [w|] eqn:A.
+    + apply checked_add_some in A. cbn [arm set_streams cwin]. repeat split; lia.
+    + apply checked_add_none in A. unfold I32_MIN, I32_MAX in *. repeat split; try lia; try exact E0.
+Qed.
+
+(** SETTINGS_INITIAL_WINDOW_SIZE: the delta reaches every stream, or it is an error *)
+Lemma apply_delta_spec delta l l' opened :
+  apply_delta delta l = (l', opened, false) ->
+  map sid l' = map sid l /\ map swin l' = map (fun x => swin x + delta) l /\ map body l' = map body l /\
+  (opened = false -> Forall (fun x => ~ (swin x <= 0 /\ 0 < swin x + delta)) l).
+Proof.
+  revert l' opened. induction l as [|x r IH]; intros l' opened H; cbn [apply_delta] in H.
+  - inversion H; subst. repeat split; constructor.
+  - destruct (checked_add (swin x) delta) as [w|] eqn:A; [|inversion H].
+    destruct (apply_delta delta r) as [[r' op] err] eqn:R. inversion H; subst; clear H.
+    apply checked_add_some in A. destruct A as [A _]. subst w.
+    destruct (IH r' op eq_refl) as (I1 & I2 & I3 & I4). cbn [map sid swin body].
+    rewrite I1, I2, I3. repeat split.
+    intros Ho. apply orb_false_iff in Ho. destruct Ho as [Ho1 Ho2].
+    constructor; [|apply I4; exact Ho2].
+    intros [P1 P2]. apply andb_false_iff in Ho1. destruct Ho1 as [Q|Q]; [apply Z.leb_gt in Q|apply Z.ltb_ge in Q]; lia.
+Qed.
+
+Lemma settings_initial_window_spec c v :
+  0 <= v ->
+  match on_settings_initial_window c v with
+  | (c', Continue) =>
+    v <= FLOW_CONTROL_MAX_WINDOW /\ init_win c' = v /\ cwin c' = cwin c /\
+    map sid (streams c') = map sid (streams c) /\
+    map swin (streams c') = map (fun x => swin x + (v - init_win c)) (streams c)
+  | (_, GoAway _) =>
+    FLOW_CONTROL_MAX_WINDOW < v \/ exists x, In x (streams c) /\ (I32_MAX < swin x + (v - init_win c) \/ swin x + (v - init_win c) < I32_MIN)
+  | (_, RstStream _ _) => False
+  end.
+Proof.
+  intros Hv. unfold on_settings_initial_window.
+  destruct (FLOW_CONTROL_MAX_WINDOW <? v) eqn:E; [apply Z.ltb_lt in E; left; exact E|].
+  apply Z.ltb_ge in E.
+  destruct (apply_delta (v - init_win c) (streams c)) as [[l op] err] eqn:A.
+  destruct err.
+  - right. clear -A. revert l op A. induction (streams c) as [|x r IH]; intros l op A; cbn [apply_delta] in A; [inversion A|].
+    destruct (checked_add (swin x) (v - init_win c)) as [w|] eqn:C.
+    + destruct (apply_delta (v - init_win c) r) as [[r' op'] err'] eqn:R. inversion A; subst.
+      destruct (IH r' op' eq_refl) as (y & Hy & Hy'). exists y. split; [right; exact Hy|exact Hy'].
+    + apply checked_add_none in C. exists x. split; [left; reflexivity|exact C].
+  - apply apply_delta_spec in A. destruct A as (A1 & A2 & _). cbn [init_win cwin streams]. repeat split; assumption.
+Qed.
+
+(** * Stream identifiers *)
+
+Lemma next_stream_id_spec last client issued next :
+  0 <= last -> next_stream_id last client = Some (issued, next) ->
+  next = last + 2 /\ 0 <= issued <= STREAM_ID_MAX /\ last - 0 <= issued + 0 /\ issued < next /\
+  (Z.even last = true -> Z.odd issued = client).
+Proof.
+  intros Hl. unfold next_stream_id.
+  destruct (U32_MAX <? last + 2); [discriminate|].
+  destruct client.
+  - destruct (last + 2 - 1 <? 0); [discriminate|]. destruct (STREAM_ID_MAX <? last + 2 - 1) eqn:M; [discriminate|].
+    apply Z.ltb_ge in M. intros H; inversion H; subst. repeat split; try lia.
+    intros He. replace (last + 2 - 1) with (last + 1) by lia. rewrite Z.odd_add. rewrite <- Z.negb_even, He. reflexivity.
+  - destruct (last + 2 - 2 <? 0); [discriminate|]. destruct (STREAM_ID_MAX <? last + 2 - 2) eqn:M; [discriminate|].
+    apply Z.ltb_ge in M. intros H; inversion H; subst. repeat split; try lia.
+    intros He. replace (last + 2 - 2) with last by lia. rewrite <- Z.negb_even, He. reflexivity.
+Qed.
+
+Lemma next_stream_id_exhausted last client :
+  STREAM_ID_MAX + 1 <= last -> next_stream_id last client = None.
+Proof.
+  intros H. unfold next_stream_id. destruct (U32_MAX <? last + 2); [reflexivity|].
+  destruct client.
+  - destruct (last + 2 - 1 <? 0); [reflexivity|]. destruct (STREAM_ID_MAX <? last + 2 - 1) eqn:M; [reflexivity|apply Z.ltb_ge in M; lia].
+  - destruct (last + 2 - 2 <? 0); [reflexivity|]. destruct (STREAM_ID_MAX <? last + 2 - 2) eqn:M; [reflexivity|apply Z.ltb_ge in M; lia].
+Qed.
+
+(** open streams never exceed the peer's MAX_CONCURRENT_STREAMS through [start_stream] *)
+Lemma start_stream_bound c w chunks c' r :
+  start_stream c w chunks = (c', r) ->
+  (r <> None -> Z.of_nat (length (streams c)) < max_conc c /\ length (streams c') = S (length (streams c))) /\
+  (r = None -> c' = c).
+Proof.
+  unfold start_stream. destruct (max_conc c <=? Z.of_nat (length (streams c))) eqn:E.
+  - intros H; inversion H; subst. split; [intros X; contradiction|reflexivity].
+  - apply Z.leb_gt in E. destruct (next_stream_id (last_id c) (is_client c)) as [[i n]|].
+    + intros H; inversion H; subst. cbn [streams]. rewrite app_length. cbn [length].
+      split; [intros _; split; [exact E|lia]|discriminate].
+    + intros H; inversion H; subst. split; [intros X; contradiction|reflexivity].
+Qed.
+
+(** * Receiver: coalesced WINDOW_UPDATEs are legal increments *)
+Lemma queue_window_update_legal cap q s inc :
+  0 < inc -> Forall (fun e => 0 < snd e <= I32_MAX) q ->
+  Forall (fun e => 0 < snd e <= I32_MAX) (queue_window_update cap q s inc).
+Proof.
+  intros Hi. revert cap. induction q as [|[k v] r IH]; intros cap Hq; cbn [queue_window_update].
+  - destruct (0 <? Z.of_nat cap); constructor; [|constructor]. cbn [snd]. unfold I32_MAX. lia.
+  - inversion Hq as [|? ? Hv Hr]; subst. cbn [snd] in Hv. destruct (k =? s).
+    + constructor; [|exact Hr]. cbn [snd]. unfold I32_MAX, U32_MAX in *. lia.
+    + constructor; [exact Hv|apply IH; exact Hr].
+Qed.
+
+(** a pass with positive windows strictly reduces what is left to send *)
+Lemma progress_round fuel c x b rest x' cw' frames :
+  body x = b :: rest -> 0 < b -> Forall (fun k => 0 <= k) rest ->
+  0 < swin x <= I32_MAX -> 0 < cwin c <= I32_MAX -> 0 < max_frame c -> (0 < fuel)%nat ->
+  write_stream fuel c x = Some (x', cw', frames) ->
+  sumz (body x') < sumz (body x) /\ 0 < sumz frames.
+Proof.
+  intros Hb Hb0 Hr Hs Hc Hm Hf W.
+  pose proof (write_stream_progress fuel c x b rest Hb Hb0 (proj1 Hs) (proj1 Hc) Hm Hf) as P.
+  rewrite W in P.
+  assert (Hbody : Forall (fun k => 0 <= k) (body x)) by (rewrite Hb; constructor; [lia|exact Hr]).
+  unfold I32_MAX in *.
+  pose proof (write_stream_sound fuel c x x' cw' frames (Z.lt_le_incl _ _ Hm) Hbody) as S.
+  destruct S as (Fa & Fs & _ & _ & Ft & _); unfold I32_MIN, I32_MAX; try lia; try exact W.
+  destruct frames as [|f tl]; [contradiction|].
+  inversion Fa as [|? ? Hf0 Htl]; subst.
+  assert (0 <= sumz tl).
+  { clear -Htl. induction tl as [|a tl IH]; unfold sumz; cbn [fold_right]; [lia|].
+    inversion Htl; subst. fold (sumz tl). specialize (IH H2). lia. }
+  unfold sumz in *. cbn [fold_right] in *. lia.
+Qed.
